@@ -1,6 +1,13 @@
 package main
 
-import "fmt"
+import (
+	"encoding/json"
+	"fmt"
+	"os"
+	"strconv"
+	"strings"
+	"sync"
+)
 
 // Small state machines: C18 (OpTable.tla), C19 (Stream.tla), C20 (Loader.tla).
 
@@ -42,6 +49,7 @@ func init() {
 			w := c.mcHolds("OpTableWalk", "OpTable_walk.cfg", tlcOpts{simulate: walks, depth: 26, workers: 1})
 			cs2, rs2 := c.replay("optable", w.cases, replayOpts{})
 			c.judge("optable", cs2, rs2, func(cs, res map[string]J) string { in, _ := res["input"].(string); return in })
+			syntaxStage(c)
 			c.exhaustive = true
 			var ds []string
 			for k, n := range drift {
@@ -51,6 +59,82 @@ func init() {
 			}
 			c.setExtra("error_class_drift", ds)
 		},
+	}
+}
+
+// syntaxStage is the reading half of "reading and writing use exactly that table": GenSyntax.tla enumerates token sequences
+// under named operator tables and gives, with the ISO term grammar of Syntax.tla, the terms each sequence denotes; the real
+// parser must read ISO text as the grammar says and must not accept anything the table does not license.
+func syntaxStage(c *checkCtx) {
+	type cfg struct {
+		table, alpha string
+		n            int
+	}
+	cfgs := []cfg{{"default", "ops", 5}, {"user", "ops", 4}, {"same", "ops", 4}, {"both", "ops", 5}, {"default", "punct", 4}}
+	if c.tier == "thorough" {
+		cfgs = []cfg{{"default", "ops", 6}, {"user", "ops", 5}, {"same", "ops", 5}, {"both", "ops", 6}, {"default", "punct", 5}, {"both", "punct", 4}}
+	}
+	tmpl, err := os.ReadFile(root + "/spec/GenSyntax_T.cfg")
+	if err != nil {
+		infra("%v", err)
+	}
+	res := make([]*tlcResult, len(cfgs))
+	var wg sync.WaitGroup
+	var first interface{}
+	var mu sync.Mutex
+	for i, k := range cfgs {
+		wg.Add(1)
+		go func(i int, k cfg) {
+			defer wg.Done()
+			defer func() {
+				if r := recover(); r != nil {
+					mu.Lock()
+					if first == nil {
+						first = r
+					}
+					mu.Unlock()
+				}
+			}()
+			text := strings.NewReplacer("@TABLE@", k.table, "@ALPHA@", k.alpha, "@NMAX@", strconv.Itoa(k.n)).Replace(string(tmpl))
+			res[i] = c.mcHolds("GenSyntax", text, tlcOpts{workers: 4})
+		}(i, k)
+	}
+	wg.Wait()
+	if first != nil {
+		panic(first)
+	}
+	nobs, obs := 0, []string{}
+	defer func() {
+		c.setExtra("syntax_misreadings_outside_the_property", map[string]J{"count": nobs, "examples": obs})
+		if nobs > 0 {
+			fmt.Printf("NOTE: %d token sequences are read as a term that they denote under no operator table (a parser misreading that does not involve the table, outside C18), e.g. %s\n", nobs, obs[0])
+		}
+	}()
+	for i, r := range res {
+		table := ""
+		for _, pr := range r.prints {
+			var u string
+			if json.Unmarshal([]byte(pr), &u) == nil && strings.HasPrefix(u, "TABLEDEF ") {
+				table = u[len("TABLEDEF "):]
+			}
+		}
+		if table == "" {
+			infra("GenSyntax (%v) did not print its table", cfgs[i])
+		}
+		cases, results := c.replay("syntax", r.cases, replayOpts{chunk: 256, opts: map[string]string{"table": table, "tabname": cfgs[i].table}})
+		c.judge("syntax", cases, results, func(cs, rs map[string]J) string {
+			if o, ok := rs["observation"].(string); ok {
+				nobs++
+				if len(obs) < 12 {
+					obs = append(obs, o)
+				}
+			}
+			if nt, _ := rs["nontrivial"].(bool); nt {
+				in, _ := rs["input"].(string)
+				return in
+			}
+			return ""
+		})
 	}
 }
 
